@@ -71,12 +71,13 @@ def inspace_cases(draw, tier="quick"):
         c["space"] = ["discrete", allocs, kind == "discrete"]
         c["actions"] = [draw(st.integers(0, k - 1)) for _ in range(nsteps)]
     c["space_kind"] = kind
+    c["second_episode"] = draw(st.sampled_from([False, True]))      # a second episode on the same environment
     return c
 
 
 def run_inspace(case):
     res = Result()
-    stats = O.replay(case, res, {"fifo", "ledger", "pricing", "target"})
+    stats = O.replay(case, res, {"fifo", "ledger", "pricing", "target"}, episodes=2 if case.get("second_episode") else 1)
     if stats["ruin"]:
         res.excluded = "ended-by-insolvency"
     special = case["cash_pos"] is not None or case["space_kind"] != "box"
@@ -84,6 +85,8 @@ def run_inspace(case):
     res.tag(case["space_kind"], "delay=%d" % case["delay"])
     if case["cash_pos"] is not None:
         res.tag("cash-entry")
+    if case.get("second_episode"):
+        res.tag("two-episodes-on-one-environment")
     return res
 
 
@@ -95,7 +98,7 @@ DISCRETE_FAULTS = ["n", "n+k", "-1", "1.5", "nan", "str", "none", "array"]
 def malformed_cases(draw, tier="quick"):
     c = draw(inspace_cases(tier))
     nsteps = len(c["actions"])
-    c["inject_at"] = draw(st.integers(0, max(0, nsteps - 1 - c["delay"])))
+    c["inject_at"] = draw(st.one_of(st.integers(0, max(0, nsteps - 1 - c["delay"])), st.integers(0, nsteps - 1)))
     c["fault"] = draw(st.sampled_from(BOX_FAULTS if c["space"][0] == "box" else DISCRETE_FAULTS))
     c["fault_idx"] = draw(st.integers(0, 5))
     return c
@@ -188,6 +191,25 @@ def run_malformed(case):
             res.fail("malformed action (%s: %r) submitted at step %d with delay %d was never rejected (step %d completed)" % (
                 case["fault"], malformed_action(case), jm, d, j))
             break
+    if raised_at is None and not res.violations and case.get("second_episode"):
+        # the malformed action was still pending when the episode ended: it must not leak into the next episode
+        env.reset()
+        for j in range(1, nsteps + 1):
+            try:
+                obs, reward, done, info = env.step(E.to_action(case["actions"][j - 1]))
+            except Exception as exc:  # noqa
+                res.fail("episode 2 submits only valid actions but step %d raised %s (a pending action of episode 1 leaked)" % (j, type(exc).__name__))
+                break
+            if info:
+                src = j - 1 - d
+                want = O.expected_allocation(b, case["actions"][src]) if src >= 0 else O.null_allocation(b)
+                got = {O.index_of(b, c): float(v) for c, v in env.broker.track_record[-1].allocation.items()}
+                if got != want:
+                    res.fail("episode 2, execution %d carries allocation %s, expected %s" % (j, got, want))
+                    break
+            if done:
+                break
+        res.tag("second-episode-after-pending-malformed")
     if raised_at is not None and not (jm <= raised_at <= jm + d):
         res.fail("malformed action submitted at step %d (delay %d) rejected at step %d" % (jm, d, raised_at))
     if raised_at is None and not res.violations:
